@@ -64,7 +64,7 @@ def space_new(run, funcs):
 
 
 def check_space_cells_native(p, profile='debug'):
-    o = engine.native(['space_cells 1 2 3 1 1.5 1 0.6'], profile)[0]       # cdim = ceil(1/.6, 1.5/.6, 1/.6) = (2,3,2)
+    o = engine.native(['space_cells 1 2 3 1 1.5 0.8 0.6'], profile)[0]       # cdim = ceil(1/.6, 1.5/.6, .8/.6) = (2,3,2), cw = (.5,.5,.4)
     if o[0] != 'ok':
         return 'panicked'
     v = [float(x) for x in o[1:]]
@@ -74,8 +74,8 @@ def check_space_cells_native(p, profile='debug'):
     k = 4
     for i, j, kk in itertools.product(range(2), range(3), range(2)):
         loc = v[k:k + 3]; w = v[k + 3:k + 6]; k += 6
-        exp = [1 + i * 0.5, 2 + j * 0.5, 3 + kk * 0.5]
-        if any(abs(a - b) > 1e-12 for a, b in zip(loc, exp)) or any(abs(a - 0.5) > 1e-12 for a in w):
+        exp = [1 + i * 0.5, 2 + j * 0.5, 3 + kk * 0.4]
+        if any(abs(a - b) > 1e-12 for a, b in zip(loc, exp)) or any(abs(a - b) > 1e-12 for a, b in zip(w, (0.5, 0.5, 0.4))):
             return 'grid cell (%d,%d,%d) of a 1 x 1.5 x 1 box split 2x3x2 is at %r with width %r, expected %r / 0.5' % (i, j, kk, loc, w, exp)
     return None
 
@@ -154,18 +154,27 @@ def cell_bounds(run, funcs):
 
 
 def check_cell_min_distance_native(p, profile='debug'):
-    """grid 1 x 2 x 2 cells of a 1 x 0.9 x 1 box: cell 0 = [0,1]x[0,0.45]x[0,0.5]; query above it in z"""
-    o = engine.native(['space_cells 0 0 0 1 0.9 1 0.5'], profile)[0]
-    if o[0] != 'ok':
-        return None
-    # use the hook through a tiny kNN scenario instead: particle 0 just above a z cell face, true neighbour just below
-    line = 'space_knn 0 0 0 1 0.9 1 0.5 1 4 0.25 0.1 0.52 0.25 0.35 0.9 0.25 0.1 0.48 0.75 0.8 0.1'
-    o = engine.native([line], profile)[0]
-    if o[0] != 'ok':
-        return 'knn panicked: ' + ' '.join(o[1:8])
-    nn0 = o[1].split(',')[0]
-    if nn0 != '2':
-        return 'kNN(1) of particle 0 at (0.25,0.1,0.52) returns %s, the nearest particle is 2 at (0.25,0.1,0.48) (cell pruned by an over-estimated distance)' % nn0
+    """the real Cell::min_distance_squared on a single-cell grid [loc, loc+width] against the exact distance to the box"""
+    v = p['vals']
+    g = lambda n: [v['%s_%s' % (n, c)] for c in 'xyz']
+    loc, w, pos = g('cl'), g('cw'), g('pos')
+    cases = [(loc, w, pos)]
+    # structured positions around the box: beyond each upper face and each lower face
+    for ax in range(3):
+        for sgn in (1, -1):
+            q = [loc[k] + 0.5 * w[k] for k in range(3)]
+            q[ax] = loc[ax] + w[ax] * (1.7 if sgn > 0 else -0.7)
+            cases.append((loc, w, q))
+    cases.append(([0.0, 0.0, 0.0], [1.0, 0.45, 0.5], [0.25, 0.1, 0.9]))
+    for (l, ww, q) in cases:
+        f = lambda t: ' '.join(engine.f2s(x) for x in t)
+        o = engine.native(['cell_min_dist %s %s %s' % (f(l), f(ww), f(q))], profile)[0]
+        if o[0] != 'ok':
+            continue
+        d2 = float(o[4])
+        exact = sum(max(l[k] - q[k], 0.0, q[k] - (l[k] + ww[k])) ** 2 for k in range(3))
+        if d2 > exact * (1 + 1e-12) + 1e-300:
+            return 'Cell [%r, +%r]: min_distance_squared(%r) = %.12g exceeds the true squared distance %.12g to the cell (a cell holding a closer particle would be pruned)' % (l, ww, q, d2, exact)
     return None
 
 
